@@ -2,18 +2,26 @@
 # Apply every kept seeded change to /repo in turn, run the quick check of its property (plus the
 # checks named in tools/sweep_extra.txt for that seed), record what was reported, undo the change.
 #   sweep_seeds.sh [<id> ...]        results: /verif/seeded/RESULTS.tsv (+ per-seed detected_by in meta.json)
+# With SWEEP_REPO=<scratch worktree of /repo> and SWEEP_VERIF=<scratch copy of /verif whose harness/Cargo.toml
+# points at that worktree> nothing in /repo is touched (the copy is refreshed from /verif once, at the start).
+REPO=${SWEEP_REPO:-/repo}
+VROOT=${SWEEP_VERIF:-/verif}
 cd /verif || exit 2
-git -C /repo diff --quiet || { echo "/repo is dirty"; exit 2; }
+if [ "$VROOT" != "/verif" ]; then
+  rsync -a --exclude 'harness/target' --exclude 'harness/Cargo.toml' --exclude 'fuzz/target' --exclude 'fuzz/corpus-run' --exclude 'replays' --exclude 'evidence' /verif/ "$VROOT"/
+  git -C "$REPO" checkout -q -- . ; git -C "$REPO" reset -q --hard "$(git -C /repo rev-parse HEAD)"
+fi
+git -C "$REPO" diff --quiet || { echo "$REPO is dirty"; exit 2; }
 IDS="$@"; [ -z "$IDS" ] && IDS=$(ls seeded | grep -E '^C[0-9]+-[0-9]+$')
 OUT=/verif/seeded/RESULTS.tsv
 [ -f "$OUT" ] || printf "seed\tcheck\texit\tsignature\n" > "$OUT"
 for id in $IDS; do
   prop=${id%%-*}
   extra=$(grep "^$id " tools/sweep_extra.txt 2>/dev/null | cut -d' ' -f2-)
-  git -C /repo apply "/verif/seeded/$id/patch.diff" || git -C /repo apply --3way "/verif/seeded/$id/patch.diff" || { printf "%s\t-\t-\tPATCH-DOES-NOT-APPLY\n" "$id" >> "$OUT"; git -C /repo checkout -q -- .; continue; }
+  git -C "$REPO" apply "/verif/seeded/$id/patch.diff" || git -C "$REPO" apply --3way "/verif/seeded/$id/patch.diff" || { printf "%s\t-\t-\tPATCH-DOES-NOT-APPLY\n" "$id" >> "$OUT"; git -C "$REPO" checkout -q -- .; continue; }
   found=""
   for c in $prop $extra; do
-    log=$(VERIF_EVIDENCE_DIR=/tmp/sweep-evidence ./check "$c" quick 2>&1); rc=$?
+    log=$(VERIF_EVIDENCE_DIR=/tmp/sweep-evidence "$VROOT/check" "$c" quick 2>&1); rc=$?
     sig=$(printf "%s\n" "$log" | grep -m1 "violation detail" | sed 's/.*signature=\(.*\) :: .*/\1/' | cut -c1-160)
     grep -v "^$id	$c	" "$OUT" > "$OUT.tmp"; mv "$OUT.tmp" "$OUT"
     printf "%s\t%s\t%s\t%s\n" "$id" "$c" "$rc" "${sig:-none}" >> "$OUT"
@@ -25,7 +33,7 @@ for id in $IDS; do
       break
     fi
   done
-  git -C /repo checkout -q -- . ; git -C /repo reset -q
+  git -C "$REPO" checkout -q -- . ; git -C "$REPO" reset -q
   python3 - "$id" "$found" <<'PY'
 import json,sys
 p='/verif/seeded/%s/meta.json'%sys.argv[1]
